@@ -17,6 +17,9 @@ CHECK = {
     "opts": {"rounds": 3, "unwind": 3, "unwind_mode": "assume", "feasibility": False, "substitute": SUB, "go_inline": True},
     "stop": list(SUB.keys()),
     "timeout_ms": {"quick": 400000, "thorough": 1800000},
-    "explanation": "actorSystem.Spawn (local arm), newSpawnConfig/Validate, runSpawnActivation with the real x/sync/singleflight, checkSpawnPreconditions, completeSpawn, attachAndPublish (counter and canonical-duplicate branch), publishSpawnedActor under solver-chosen interleavings; instance creation (configPID) and the tree operations (nodeByName/node/addNode/addWatcher) are substituted by a mutex-protected ghost tree.",
-    "bounds": {"threads": "2 concurrent Spawn calls (same name / different names)", "rounds": 3, "singleflight goroutine": "runs inline at its spawn point"},
+    "explanation": "actorSystem.Spawn (local arm) and actorSystem.SpawnNamedFromFunc (newFuncConfig/newFuncActor), newSpawnConfig/Validate, runSpawnActivation (context pre-check, DoChan, context-aware select, retry-once on an inherited cancellation) with the real x/sync/singleflight, checkSpawnPreconditions, completeSpawn, attachAndPublish (counter and canonical-duplicate branch), publishSpawnedActor under solver-chosen interleavings. Entries: two Spawn of one name; two Spawn of different names; Spawn racing SpawnNamedFromFunc of one name (the two entry points must serialise on the same key); three Spawn of one name where the first caller's context (a harness context type with a done channel) is cancelled by a fourth thread at an arbitrary moment, so a single-flight winner may abort mid-initialisation and its coalesced waiters retry. Asserted: at most one instance is ever started for a name, every successful caller receives the same PID, callers with a live context succeed, actorsCounter == 1 after settling. Instance creation (configPID) is substituted by a ghost that fails with ctx.Err() when the caller's context is cancelled at that point (initialisation runs under the caller's context) and otherwise records a started, running instance; the tree operations (nodeByName/node/addNode/addWatcher), PID.Name/ID and actorReference are substituted by a ghost name->node map whose operations are atomic (no synchronisation operation between check and insert).",
+    "bounds": {"threads": "2 concurrent spawns (same name / different names / Spawn + SpawnNamedFromFunc); 3 concurrent Spawn + 1 cancelling thread",
+               "rounds": "3 (vC11_winnerCancelled: 2 in the quick tier, 3 in thorough)", "singleflight goroutine": "runs inline at its spawn point",
+               "retry": "a waiter retries at most once (the code's own retried flag; loop unwound 3)"},
+    "assumptions": ["an actor initialisation aborted by the caller's context leaves no running instance (rollback inside configPID/newPID is not executed here)"],
 }
